@@ -24,7 +24,7 @@
 From DnsV Require Import Base.Bytes Base.Ip Spec.Lpm Model.Rearranger Model.Location Model.Ecs.
 From DnsV Require Import Model.Compile Spec.MapOfLists.
 From DnsV Require Import Proofs.MultiValue Proofs.MapOfLists Proofs.Batch Proofs.CompilePipe.
-From DnsV Require Import Proofs.Lpm Proofs.Location Proofs.BytesOrder Proofs.Rearranger Proofs.SquashKeys.
+From DnsV Require Import Proofs.Lpm Proofs.Location Proofs.BytesOrder Proofs.Rearranger Proofs.RdbLocate Proofs.SquashKeys.
 From DnsV Require Import Proofs.Ecs Proofs.LinkEcsLpm.
 From Coq Require Import Lia Permutation.
 Open Scope N_scope.
@@ -193,7 +193,13 @@ End Accum.
 
 (* ---------------------------------------------------------------- from the records to the database *)
 
-Section StoreHoldsPoints.
+(* [dbl] holds the records [R] grouped by key, the values of one key framed and
+   concatenated in some order: what every RocksDB compiler produces (multi-value) *)
+Definition grouped (R dbl : list (bytes * bytes)) : Prop :=
+  (forall k v, In (k, v) dbl -> exists vs, vs <> [] /\ Permutation vs (vals_of k R) /\ v = encode vs) /\
+  (forall k, vals_of k R <> [] -> exists vs, Permutation vs (vals_of k R) /\ In (k, encode vs) dbl).
+
+Section GroupedHoldsPoints.
   Variable sort : list point -> list point.
   Hypothesis Hsort : sort_spec sort.
   Variable nets : mapid -> list subnet.
@@ -207,49 +213,39 @@ Section StoreHoldsPoints.
   Hypothesis Hacc : rp_accum sort nets ids = Ok acc.
   Hypothesis HR : Permutation R (acc ++ rest).
   Hypothesis Hrest : forall k v, In (k, v) rest -> is_rp_key k = false.
-  (* the compiled store: C07's conclusion *)
-  Variable s : store.
-  Hypothesis s_ok : store_ok s.
-  Hypothesis s_vals : forall k, Permutation (vals s k) (vals_of k R).
   Variable dbl : list (bytes * bytes).
-  Hypothesis Hdbl : lists_store dbl s.
+  Hypothesis Hgrp : grouped R dbl.
 
-  (* under a range-point key the store holds what the accumulator's records hold *)
-  Lemma rp_vals : forall k, is_rp_key k = true -> Permutation (vals s k) (vals_of k acc).
+  (* under a range-point key the records hold what the accumulator's records hold *)
+  Lemma rp_vals : forall k, is_rp_key k = true -> Permutation (vals_of k R) (vals_of k acc).
   Proof.
-    intros k Hk. eapply Permutation_trans; [apply s_vals|].
+    intros k Hk.
     eapply Permutation_trans; [apply vals_of_perm; exact HR|]. rewrite vals_of_app.
     assert (Z : vals_of k rest = []).
     { apply vals_of_nil_iff. intros v C. rewrite (Hrest k v C) in Hk. discriminate. }
     rewrite Z, app_nil_r. apply Permutation_refl.
   Qed.
 
-  (* a stored record is the framing of the values read under its key *)
-  Lemma stored_is_encode : forall k d, s k = Some d -> d = encode (vals s k) /\ vals s k <> [].
+  Theorem grouped_holds_points : rdb_holds_points sort nets dbl.
   Proof.
-    intros k d E. destruct (s_ok k d E) as [vs [NE [W D]]]. subst d.
-    change (vals s k) with (abs s k). rewrite (abs_some s k vs W E). auto.
-  Qed.
-
-  Theorem store_holds_points : rdb_holds_points sort nets dbl.
-  Proof.
+    destruct Hgrp as [G1 G2].
     intro m. destruct (rearrange_total sort Hsort nets Hwf m) as [pts Er]. exists pts. split; [exact Er|].
     split.
     - (* every point's record is there, with exactly one chunk *)
-      intros p Hp. apply Hdbl.
+      intros p Hp.
       destruct (in_dec mapid_eq_dec m ids) as [Hm|Hm].
       + pose proof (rp_vals (rp_key m p) (rp_key_is_rp m p)) as P.
         rewrite (rp_accum_vals sort Hsort nets Hwf ids acc ids_nodup Hacc m pts p Hm Er Hp) in P.
         apply Permutation_sym, Permutation_length_1_inv in P.
-        destruct (s (rp_key m p)) as [d|] eqn:E.
-        * destruct (stored_is_encode _ d E) as [D _]. rewrite P, encode_one in D. rewrite D. reflexivity.
-        * change (vals s (rp_key m p)) with (abs s (rp_key m p)) in P. rewrite (abs_none _ _ E) in P. discriminate P.
+        destruct (G2 (rp_key m p)) as [vs [Pv Hin]]; [rewrite P; discriminate|].
+        rewrite P in Pv. apply Permutation_sym, Permutation_length_1_inv in Pv. subst vs.
+        rewrite encode_one in Hin. exact Hin.
       + rewrite (ids_cover m Hm) in Er. unfold rearrange in Er. cbn in Er. inversion Er. subst pts. destruct Hp.
     - (* every record under the marker and map prefix is the record of a point *)
-      intros k v Hin Hpre. apply Hdbl in Hin.
-      destruct (stored_is_encode k v Hin) as [D NE].
+      intros k v Hin Hpre.
+      destruct (G1 k v Hin) as [vs [NE [Pv D]]].
       assert (Hk : is_rp_key k = true) by (exact (is_prefix_app_l _ _ _ Hpre)).
-      pose proof (rp_vals k Hk) as P.
+      pose proof (Permutation_trans Pv (rp_vals k Hk)) as P.
       destruct (vals_of k acc) as [|v0 vr] eqn:Ev.
       { apply Permutation_sym, Permutation_nil in P. contradiction. }
       assert (Hin0 : In (k, v0) acc) by (apply vals_of_In; rewrite Ev; left; reflexivity).
@@ -259,7 +255,37 @@ Section StoreHoldsPoints.
       rewrite <- Ev in P. apply Permutation_sym, Permutation_length_1_inv in P.
       exists p. split; [exact H3|]. split; [reflexivity|]. rewrite D, P. apply encode_one.
   Qed.
-End StoreHoldsPoints.
+End GroupedHoldsPoints.
+
+(* a store in C07's sense (store_ok, the values of every key are those of the records),
+   listed, is such a grouping *)
+Lemma store_grouped : forall R (s : store) dbl, store_ok s ->
+  (forall k, Permutation (vals s k) (vals_of k R)) -> lists_store dbl s -> grouped R dbl.
+Proof.
+  intros R s dbl s_ok s_vals Hdbl.
+  assert (stored_is_encode : forall k d, s k = Some d -> d = encode (vals s k) /\ vals s k <> []).
+  { intros k d E. destruct (s_ok k d E) as [vs [NE [W D]]]. subst d.
+    change (vals s k) with (abs s k). rewrite (abs_some s k vs W E). auto. }
+  split.
+  - intros k v Hin. apply Hdbl in Hin. destruct (stored_is_encode k v Hin) as [D NE].
+    exists (vals s k). auto.
+  - intros k NE. destruct (s k) as [d|] eqn:E.
+    + destruct (stored_is_encode k d E) as [D _]. exists (vals s k). split; [apply s_vals|].
+      apply Hdbl. rewrite E, D. reflexivity.
+    + exfalso. pose proof (s_vals k) as P. change (vals s k) with (abs s k) in P.
+      rewrite (abs_none _ _ E) in P. apply Permutation_nil in P. contradiction.
+Qed.
+
+Theorem store_holds_points : forall sort, sort_spec sort -> forall nets, (forall m, wf_subnets (nets m)) ->
+  forall ids, NoDup ids -> (forall m, ~ In m ids -> nets m = []) ->
+  forall acc rest R, rp_accum sort nets ids = Ok acc -> Permutation R (acc ++ rest) ->
+  (forall k v, In (k, v) rest -> is_rp_key k = false) ->
+  forall s : store, store_ok s -> (forall k, Permutation (vals s k) (vals_of k R)) ->
+  forall dbl, lists_store dbl s -> rdb_holds_points sort nets dbl.
+Proof.
+  intros sort Hsort nets Hwf ids N C acc rest R Ha HR Hrest s Hok Hv dbl Hl.
+  exact (grouped_holds_points sort Hsort nets Hwf ids N C acc rest R Ha HR Hrest dbl (store_grouped R s dbl Hok Hv Hl)).
+Qed.
 
 (* ---------------------------------------------------------------- in C07's terms *)
 
@@ -394,7 +420,7 @@ Lemma dedup_ids_nodup : forall l, NoDup (dedup_ids l).
 Proof.
   induction l as [|y l IH]; cbn [dedup_ids]; [constructor|].
   destruct (mem_id y l) eqn:E; [exact IH|]. constructor; [|exact IH].
-  intro C. apply dedup_ids_in, mem_id_iff in C. congruence.
+  intro C. apply (proj1 (dedup_ids_in y l)) in C. apply (proj2 (mem_id_iff y l)) in C. congruence.
 Qed.
 
 Lemma file_ids_nodup : forall f, NoDup (file_ids f).
@@ -429,8 +455,6 @@ Lemma net_codec_ok : forall sort f, sort_spec sort -> (forall m, wf_subnets (net
 Proof.
   intros sort f Hs Hw.
   destruct (rp_accum_total sort Hs _ Hw (file_ids (net_file f))) as [acc Ea].
-  assert (Z : flat_map (recs_of netline net_conv) f = []).
-  { induction f as [|l r IH]; [reflexivity|]. cbn [flat_map]. unfold recs_of at 1, net_conv. cbn [app]. reflexivity || exact IH. }
   assert (Z' : forall g : list netline, flat_map (recs_of netline net_conv) g = []).
   { induction g as [|l r IH]; [reflexivity|]. cbn [flat_map]. rewrite IH. reflexivity. }
   split; [|split; [discriminate|split]].
